@@ -65,6 +65,7 @@ func initProperties() {
 			Decides: "the clause `a path that does not fit the value's shape or the descriptor yields an error result, never a panic` and error propagation of the read walkers: descriptor lookups are nil-checked before use (NILLOOKUP), no fallible call's error is dropped or swallowed (DROPERR, ERRSWALLOW), size-guarded cursor functions get positive sizes (PANICARG), container counts are bounded (ALLOCBOUND), every search loop consumes (LOOPPROGRESS) and the unknown-field branches skip (UNKNOWNSKIP) — over package thrift/generic and the thrift skip/readers it uses.",
 			NotDec:  "that offsets, spans and values returned are the right ones (chained skip arithmetic is value-level); typed/untyped agreement; effect of each read option.",
 			Uses: uses(
+				use("MULTICASEADDR", "an unhashable map key is boxed as a pointer to its concrete type", thriftGeneric),
 				use("OPTSFORWARD", "the caller's options reach every part of the result", thriftGeneric),
 				use("ITERKIND", "a typed key reader checks the map's key type first", thriftGeneric),
 				use("SIGNEDBYTE", "an i8 map key / element is widened as a signed value", anyOf(thriftGeneric, thriftPkg)),
@@ -134,6 +135,8 @@ func initProperties() {
 			Decides: "balanced `{}`/`[]` on every success path of the t2j walkers (JSONPAIR — a necessary condition of `never malformed JSON with a nil error`), member keys come from one FieldDescriptor accessor everywhere (KEYSRC), thrift type switches are exhaustive (KINDEXH), unknown fields are an error exactly when disallowed and are otherwise skipped (NEGPOLARITY, UNKNOWNSKIP), no error dropped (DROPERR), loops consume (LOOPPROGRESS).",
 			NotDec:  "comma placement, numeric and string exactness (value-level).",
 			Uses: uses(
+				use("B64STD", "binary is written and read in the standard base64 alphabet", nil),
+				use("NOCAPREAD", "a reader never looks beyond len(Buf)", inPkgs("conv/t2j", "thrift")),
 				use("NOGOQUOTE", "keys and strings are quoted as JSON, not as Go literals", nil),
 				use("GROWCAP", "the output buffer is re-allocated with room for what it holds", nil),
 				use("DONILNIL", "no converter answers (nil, nil)", inPkgs("conv/t2j")),
@@ -215,6 +218,8 @@ func initProperties() {
 			Decides: "for every function of both protocols, both generic packages and the four converters, in both build configurations: every cursor loop consumes input or leaves (LOOPPROGRESS), no input-derived count sizes an allocation unbounded (ALLOCBOUND), size-guarded functions never get a non-positive size (PANICARG), descriptor lookups on input-derived ids are nil-checked (NILLOOKUP), input-driven recursion carries a depth budget (RECDEPTH), no decoder error is dropped or swallowed (DROPERR, ERRSWALLOW).",
 			NotDec:  "out-of-bounds reads through unsafe in general (only the scalar casts of thrift/generic are tied to the node length, RAWWIDTH; header peeks of iterators and of the protobuf side need value ranges), panics inside sonic or the native blob, wall-clock bounds.",
 			Uses: uses(
+				use("ERRVALDESC", "a chained lookup on a failed value does not dereference the missing descriptor", nil),
+				use("NOCAPREAD", "a truncated message in a larger array is not read past its length", nil),
 				use("PROBEBOUND", "a lookup in the child hash table ends after one round", nil),
 				use("COUNTSIGN", "a count decoded in place is sign-tested before it scales a cursor advance", nil),
 				use("GROWCAP", "a nearly full buffer is re-allocated with a capacity above its length", nil),
@@ -268,6 +273,7 @@ func initProperties() {
 			Decides: "unknown field numbers in the message cannot crash reads (NILLOOKUP over proto/generic), kind/wire-type/packedness tables match the protobuf spec (KINDTABLE — they drive every skip), errors propagate (DROPERR, ERRSWALLOW), search loops consume (LOOPPROGRESS), unknown fields are skipped (UNKNOWNSKIP).",
 			NotDec:  "positions/values, packed/unpacked boundaries, empty sub-messages.",
 			Uses: uses(
+				use("ERRVALDESC", "a getter applied to an error value hands the error on", nil),
 				use("NOUNTYPEDSKIP", "a packed list is skipped by its element wire type", nil),
 				use("OPTSFORWARD", "the caller's options reach every part of the result", protoGeneric),
 				use("TWINCMP", "the peeking tag reader rejects what the moving one rejects", inPkgs("proto/binary")),
@@ -320,6 +326,8 @@ func initProperties() {
 			Decides: "balanced JSON on every success path of p2j (JSONPAIR), every legal map-key kind is quoted (MAPKEYQUOTE), unsigned kinds are not routed through a signed formatter (SIGNCONV), the kind switch covers the 15 scalar kinds + MESSAGE (KINDEXH), list/map loops consume and stop on errors (LOOPPROGRESS, DROPERR), unknown = error iff disallowed (NEGPOLARITY).",
 			NotDec:  "float exactness, comma placement.",
 			Uses: uses(
+				use("NOCAPREAD", "the narrowed buffer of a sub-message is restored from the saved slice, not from its capacity", inPkgs("conv/p2j", "proto/binary")),
+				use("B64STD", "bytes fields are written in the standard base64 alphabet", nil),
 				use("DONILNIL", "no converter answers (nil, nil): an empty message is {}", inPkgs("conv/p2j")),
 				use("NOGOQUOTE", "keys and strings are quoted as JSON, not as Go literals", nil),
 				use("REGIONEXACT", "a packed list / embedded message is walked exactly to the end of its payload", nil),
@@ -350,6 +358,7 @@ func initProperties() {
 			Decides: "the visitor's kind switches accept every kind the spec allows for a JSON number/string/bool and map key (KINDEXH), per-kind writer primitives match the spec (RWPAIR), tags use real wire types and map entries use field numbers 1/2 (TAGTYPE, MAPTAG), parse errors are not blanked (DROPERR), unknown = error iff disallowed (NEGPOLARITY).",
 			NotDec:  "speculative-length shifting at 127/128/16383 (value-level; pairing across sonic callbacks is dynamic), range checks.",
 			Uses: uses(
+				use("B64STD", "bytes fields are read in the alphabet p2j writes", nil),
 				use("PARSEWIDTH", "map keys given as text are parsed at the width of the key kind", inPkgs("conv/j2p")),
 				use("VALUEEND", "every value handler closes the value it handled", nil),
 				use("LENBEFOREEND", "a length is written back before its frame is released", nil),
@@ -386,6 +395,7 @@ func initProperties() {
 			Decides: "inserted tags carry a real wire type and map entries key=1/value=2 (TAGTYPE, MAPTAG), speculative lengths are finished on every path of PathNode.marshal (SPECLENPAIR), name->number translation is nil-checked (NILLOOKUP), insertion/tag errors propagate (DROPERR), the delete locator has a not-found exit (NOTFOUNDEXIT).",
 			NotDec:  "updateByteLen ancestor-length arithmetic.",
 			Uses: uses(
+				use("CLOSURERESULT", "every re-written length prefix reports its own size change to the enclosing ones", protoGeneric),
 				use("NOUNTYPEDSKIP", "a packed list is skipped by its element wire type", nil),
 				use("PEEKBREAK", "the not-found position of a map / list lies before the next field's tag", protoGeneric),
 				use("BUFOWN", "marshal only extends the writer's buffer", protoGeneric),
@@ -447,6 +457,7 @@ func initProperties() {
 			Decides: "no function reachable (VTA call graph) from a read-side entry point writes descriptor state (DESCIMMUT), a package-level variable (GLOBALWRITE), the caller's input bytes (INPUTRO) or a converter receiver — hence concurrent read-side calls share only immutable data and sync.Pool objects; pooled buffers are never returned, stored in caller-visible memory or used after Put (POOLESCAPE).",
 			NotDec:  "result equality under interleavings, dirty pooled bitmaps (value-level), user-supplied http getters.",
 			Uses: uses(
+				use("RECYCLEFOREIGN", "the caller's input array never enters the protocol pool", nil),
 				use("POOLNEWSHARED", "pooled objects share no storage", nil),
 				use("BUFOWN", "a pooled writer's buffer never aliases the caller's input", nil),
 				use("SPARSECLEAR", "a pooled PathNode does not show the previous document's children", nil),
@@ -464,6 +475,7 @@ func initProperties() {
 			Decides: "every kind one direction emits as a JSON number/string/bool is accepted from that JSON kind by the inverse direction (KINDINV), both directions use the same key accessor (KEYSRC).",
 			NotDec:  "everything numeric (precision, sign of zero), string quoting, base64.",
 			Uses: uses(
+				use("B64STD", "encoder and decoder of binary values share one alphabet", nil),
 				use("SIGNPARSE", "a key that p2j printed is accepted by j2p", nil),
 				use("GROWCAP", "buffer growth keeps what was written", nil),
 				use("PACKEDTAG", "a [packed = false] list written by j2p is the one p2j read", nil),
@@ -478,6 +490,7 @@ func initProperties() {
 			Decides: "every name map that is filled is built (BUILDPAIR: without Build every key lookup returns nil), trie/hash Set and Get derive slots through the same helper (SEQAGREE), descriptors are not written after parsing (DESCIMMUT).",
 			NotDec:  "fidelity to the IDL, default values, requiredness under options, the native trie_get/hm_get twins, adversarial keys.",
 			Uses: uses(
+				use("PROBEMOD", "Get and Set of the name hash map probe with the same modulus", nil),
 				use("INPLACEFILTER", "selecting methods does not overwrite the list still being searched", nil),
 				use("BITMAPLEN", "the requires bitmap of a struct with sparse ids keeps every bit", nil),
 				use("RECINTARG", "key and value of a map type are parsed at the same depth", thriftPkg),
@@ -507,6 +520,7 @@ func initProperties() {
 			Decides: "the compiling cache is keyed injectively (CACHEKEY: message types sharing a simple name get distinct descriptors), kind/wire/packedness tables match the spec (KINDTABLE), name maps are built (BUILDPAIR).",
 			NotDec:  "field-by-field fidelity, streaming flags.",
 			Uses: uses(
+				use("PROBEMOD", "Get and Set of the name hash map probe with the same modulus", nil),
 				use("REGISTERALL", "name, number and JSON-name tables are filled under the same conditions", nil),
 				use("PUBLISHCOMPLETE", "a descriptor is complete when it enters the compile cache", inPkgs("proto")),
 				use("KNOWNNILARG", "the name index is not filled with nil probe results", inPkgs("internal/util", "internal/caching", "proto")),
@@ -547,6 +561,7 @@ func initProperties() {
 			Decides: "each annotation key maps to the type whose Request/Response calls the getter/setter of its declared source (ANNOTABLE), the first listed source with a value wins (FIRSTWINS), HTTPConv really enables mapping before flags are computed (FLAGSYNC), fallback options reach the right parameters (ARGSWAP), mapping errors are not dropped (DROPERR).",
 			NotDec:  "precedence/fallback decision table, field-cache replay in the native converter.",
 			Uses: uses(
+				use("B64STD", "a binary field from an HTTP source is decoded in the standard alphabet", nil),
 				use("PARSEWIDTH", "an HTTP value is parsed at the width of its field: out-of-range text is an error", nil),
 				use("ENCODINGTABLE", "each mapping announces the value codec the converters expect", nil),
 				use("SIGNEDBYTE", "the text form of an i8 (header, query, js_conv) is signed", nil),
@@ -572,6 +587,7 @@ func initProperties() {
 			Decides: "every native stub is bound in all three SIMD flavours with identical key sets and each flavour loads its own text (STUBTABLE), native and portable files are selected by exactly complementary build constraints (TAGPARTITION), the portable converter reads the options the native flags carry (OPTAGREE) and rejects kind mismatches on every path (CASEEXIT), native skip failure is an error like Go skip (NATIVERET).",
 			NotDec:  "agreement of outputs, text-encoder exactness (opaque blob).",
 			Uses: uses(
+				use("NOCAPREAD", "native and portable skip both stop at len(Buf)", nil),
 				use("CTWINLIT", "Go and native halves of the field-name lookup use the same constants", nil),
 				use("NATIVEROW", "each native stub row is built from its own routine's constants", nil),
 				use("PARSEBASE", "the portable converter reads text integers in base 10 like the native one", nil),
@@ -593,6 +609,7 @@ func initProperties() {
 			Decides: "skip width = read width = write width per fixed-size type (WIDTHTABLE), container/field headers precede elements in the generic writers (HDRFIRST), structs are closed with STOP (STRUCTPAIR), casted values are the ones written (CASTUSED), precomputed header/footer issue the same writer sequence as WrapBinaryBody (SEQAGREE), type switches exhaustive (KINDEXH), counts bounded (ALLOCBOUND), no size panics (PANICARG).",
 			NotDec:  "value round-trips.",
 			Uses: uses(
+				use("NOCAPREAD", "fixed-width reads are bounded by len(Buf)", thriftPkg),
 				use("INTSWITCHCOVER", "the Go-value writer accepts every integer width the reader produces", nil),
 				use("MAPHDRORDER", "a map header is key type, value type, count", thriftPkg),
 				use("SIGNEDBYTE", "ReadInt(I08) is the inverse of WriteInt(I08)", thriftPkg),
